@@ -237,6 +237,19 @@ R.add('L10.5', l105, [dict(ticks=7)],
       bounds='7 ticks; 2 header types x 4 x 4 follow-up actions (more application data / keep-alives / duplicate / nothing); handler raising in connect+message or nowhere; the application payload is a fixed byte string')
 
 
+# ------------------------------------------------------------------ L10.6 rejected datagrams do not postpone the silence timeout
+# "disconnect exactly once - on ... silence timeout": the sweep reads the connection's liveness clock, so a datagram that is
+# rejected (a replay of something already received) must not refresh it, or a dead client fed with replays is never
+# disconnected.  Same harness as C04 L4.1 (arbitrary window, duplicate at any offset; the snapshot holds the liveness clock).
+from . import c04 as _c04  # noqa: E402
+
+R.add('L10.6', _c04.l41, [dict(rx_is_server=True)], replay=_c04.replay_l41,
+      desc='server-side connection, duplicate of a datagram received 0..32767 datagrams ago: rejected without refreshing the liveness '
+           'clock that the silence sweep reads',
+      expect=['a duplicate datagram has no other effect'],
+      bounds='as C04 L4.1')
+
+
 # ------------------------------------------------------------------ L10.3 tokens
 def l103(n):
     ctxt = proto.mk_ctxt()
